@@ -1,4 +1,5 @@
 import CsVerif.Model.C17
+import CsVerif.Gen.PyGuard
 /-! Line-protocol driver for the C17 model.
 
   scan  <payload> <xorkey>   iter_guardrail_configs(BytesIO(payload), xorkey)
@@ -59,6 +60,10 @@ def step : List String → String
   | ["cks", d] =>
     match bytesTok d with
     | some d => toString (payloadChecksum d)
+    | none => "bad-op"
+  | ["gcks", d] =>     -- the definition translated from the source text (Gen/PyGuard.lean)
+    match bytesTok d with
+    | some d => showPy toString (Gen.PyGuard.payload_checksum d)
     | none => "bad-op"
   | _ => "bad-op"
 
